@@ -169,4 +169,11 @@ P['C13'] = dict(
     mismatch_meaning='a stalled or failing channel delayed others, exceeded its bounded backlog, reordered, or stayed open while discarding output: concrete write history',
 )
 
+P['C12'] = dict(
+    bin='scen', compare=cmp_scen,
+    rule='real Node; Close() issued at scripted points: before the first event is consumed, reader blocked on an undelivered event, idle, writer blocked in the transport (a transport whose Write only returns on Close), channel mid-close (read error just before), traffic in flight, 100 pending writes — each with the consumer running and absent, 1..3 custom endpoints, 0..2 goroutines calling WriteMessageAll before, during and after Close, GOMAXPROCS 1/2/16; then network endpoints over loopback (TCP/UDP server with a peer, TCP client connected and in reconnect back-off, UDP client, UDP broadcast) and a node whose initialisation fails on its third endpoint. Observed: Close returns within 8 s, ranging over Events() ends, each custom transport closed exactly once, no goroutine running gomavlib/pion code is left, Write* callers returned without panic, TCP/UDP ports can be bound again. Every case expects the verdict ok. Non-trivial: every case.',
+    assumptions=['fairness of the Go scheduler and OS release of sockets are measured, not proved', 'goroutine-leak probe: stacks containing gomavlib or pion frames, polled up to 3 s'],
+    mismatch_meaning='Close did not return, or left a goroutine, socket, open event channel or unclosed custom transport behind, or a Write* call blocked / panicked: the scenario description is the replay',
+)
+
 KNOWN_MATCH = {'F12': match_f12}
